@@ -17,7 +17,7 @@ class Units:
         self.wrappers = set(wrappers)
 
     def unit(self, t, depth=0):
-        key = id(t)
+        key = t
         if key in self._memo:
             return self._memo[key]
         if depth > 40:
